@@ -129,6 +129,10 @@ func tableCase(r *evid.Run, db walletdb.DB, rg *rand.Rand, idx int, cs int64) {
 		}
 	}
 	fresh := rg.Intn(2) == 0
+	// the wallet upgrades several services in ONE call (Upgrade(txmgr, addrmgr)):
+	// sometimes an up-to-date service precedes the table under test and/or a
+	// service with one pending migration follows it
+	withPre, withPost := rg.Intn(3) == 0, rg.Intn(3) == 0
 	// failure position: -1 = none, else index into runnable — every position enumerated
 	for failPos := -1; failPos < len(runnable); failPos++ {
 		var calls, setCalls []uint32
@@ -165,12 +169,44 @@ func tableCase(r *evid.Run, db walletdb.DB, rg *rand.Rand, idx int, cs int64) {
 			b.Put([]byte("pre-existing"), []byte("data"))
 			return b.Put([]byte("v"), v[:])
 		})
+		var preCalls, postCalls, preSet, postSet []uint32
+		walletdb.Update(db, func(tx walletdb.ReadWriteTx) error {
+			b := tx.ReadWriteBucket(bk)
+			for name, v := range map[string]byte{"pre": 3, "post": 1} {
+				nb, err := b.CreateBucket([]byte(name))
+				if err != nil {
+					return err
+				}
+				nb.Put([]byte("v"), []byte{0, 0, 0, v})
+			}
+			return nil
+		})
+		neighbour := func(calls *[]uint32, nums ...uint32) []migration.Version {
+			var out []migration.Version
+			for _, n := range nums {
+				n := n
+				out = append(out, migration.Version{Number: n, Migration: func(b walletdb.ReadWriteBucket) error {
+					*calls = append(*calls, n)
+					return b.Put([]byte{'d', byte(n)}, []byte{1})
+				}})
+			}
+			return out
+		}
 		before := dumpDB(db, bk)
 		err := walletdb.Update(db, func(tx walletdb.ReadWriteTx) error {
-			return migration.Upgrade(&recMgr{name: "t", ns: tx.ReadWriteBucket(bk), versions: vs, fresh: fresh, setCalls: &setCalls})
+			b := tx.ReadWriteBucket(bk)
+			var mgrs []migration.Manager
+			if withPre {
+				mgrs = append(mgrs, &recMgr{name: "pre", ns: b.NestedReadWriteBucket([]byte("pre")), versions: neighbour(&preCalls, 1, 2, 3), fresh: fresh, setCalls: &preSet})
+			}
+			mgrs = append(mgrs, &recMgr{name: "t", ns: b, versions: vs, fresh: fresh, setCalls: &setCalls})
+			if withPost {
+				mgrs = append(mgrs, &recMgr{name: "post", ns: b.NestedReadWriteBucket([]byte("post")), versions: neighbour(&postCalls, 1, 2), fresh: fresh, setCalls: &postSet})
+			}
+			return migration.Upgrade(mgrs...)
 		})
 		after := dumpDB(db, bk)
-		desc := fmt.Sprintf("declared=%v nil=%v stored=%d latest=%d failAt=%d freshTablePerCall=%v", nums, keys(nilNums), stored, latest, failAt, fresh)
+		desc := fmt.Sprintf("declared=%v nil=%v stored=%d latest=%d failAt=%d freshTablePerCall=%v upToDateServiceBefore=%v pendingServiceAfter=%v", nums, keys(nilNums), stored, latest, failAt, fresh, withPre, withPost)
 		detail := map[string]any{"case": desc, "invoked": fmt.Sprint(calls), "set_version_calls": fmt.Sprint(setCalls), "error": fmt.Sprint(err)}
 		r.Hit("upgrade-runs", 1)
 		// oracle
@@ -195,6 +231,23 @@ func tableCase(r *evid.Run, db walletdb.DB, rg *rand.Rand, idx int, cs int64) {
 			}
 			r.Violation(key, fmt.Sprintf("%s: migrations invoked %v, must be %v (each pending one once, ascending)", desc, calls, wantCalls), "tables", cs, detail)
 			return
+		}
+		if len(preCalls) != 0 || len(preSet) != 0 {
+			r.Violation("c19:up-to-date-service-migrated", fmt.Sprintf("%s: the up-to-date service listed first had migrations %v invoked, SetVersion %v", desc, preCalls, preSet), "tables", cs, detail)
+			return
+		}
+		if withPost {
+			r.Hit("upgrade-calls-with-several-services", 1)
+			want := "[2]"
+			if wantErr || stored > latest {
+				want = "[]"
+			}
+			if fmt.Sprint(postCalls) != want || fmt.Sprint(postSet) != want {
+				r.Violation("c19:later-service-not-upgraded", fmt.Sprintf("%s: the service listed after it (stored 1, latest 2) had migrations %v invoked and SetVersion %v, want %s", desc, postCalls, postSet, want), "tables", cs, detail)
+				return
+			}
+		} else if withPre {
+			r.Hit("upgrade-calls-with-several-services", 1)
 		}
 		if (err != nil) != wantErr {
 			r.Violation("c19:wrong-result", fmt.Sprintf("%s: Upgrade returned %v", desc, err), "tables", cs, detail)
@@ -298,6 +351,9 @@ func realCase(r *evid.Run, dir string, cs int64) {
 	})
 	// wind the stored versions back: wtxmgr -> 1, waddrmgr -> 7 (or only one of them)
 	windTx, windAddr := true, rg.Intn(2) == 0
+	if rg.Intn(3) == 0 {
+		windTx, windAddr = false, true // the FIRST service is up to date, the second is behind
+	}
 	walletdb.Update(db, func(tx walletdb.ReadWriteTx) error {
 		if windTx {
 			tx.ReadWriteBucket([]byte("wtxmgr")).Put([]byte("vers"), []byte{0, 0, 0, 1})
@@ -332,9 +388,12 @@ func realCase(r *evid.Run, dir string, cs int64) {
 				return
 			}
 			bal, err := w.CalculateBalance(0)
-			if err != nil || bal != 0 {
+			if err != nil || windTx && bal != 0 {
 				r.Violation("c19:store-unusable-after-upgrade", fmt.Sprintf("balance %v err %v (history must have been dropped by migration 2)", bal, err), "real", cs, nil)
 				return
+			}
+			if !windTx {
+				r.Hit("real-upgrades-with-first-service-up-to-date", 1)
 			}
 			r.Hit("real-upgrades-completed", 1)
 			r.Hit("real-upgrade-fault-positions", k-1)
